@@ -97,6 +97,33 @@ def xml_same(a: str, b: str, ordered: bool):
     return _unordered(ta) == _unordered(tb), ta, tb
 
 
+def _regular_groups(kids) -> bool:
+    """The children are a sequence of SEGMENTS over pairwise disjoint names: a run of one name, or k identical rounds of
+    one tuple of distinct names (one 'sequence' group each) - the interleavings the generated lists can replay."""
+    i, used = 0, set()
+    while i < len(kids):
+        n = kids[i]
+        if n in used:
+            return False
+        nxt = next((j for j in range(i + 1, len(kids)) if kids[j] == n), None)
+        if nxt is None or nxt == i + 1:
+            j = i
+            while j < len(kids) and kids[j] == n:      # a single name, possibly repeated contiguously
+                j += 1
+            used.add(n)
+            i = j
+            continue
+        tup = kids[i:nxt]
+        if len(set(tup)) != len(tup) or used & set(tup):
+            return False
+        j = i
+        while kids[j:j + len(tup)] == tup:
+            j += len(tup)
+        used |= set(tup)
+        i = j
+    return True
+
+
 def irregular_interleaving(t) -> bool:
     """Selector of F29: some element has repeated children that are interleaved with others, and the child
     names are not k identical rounds of one tuple of distinct names with the singles outside the repeating
@@ -108,17 +135,8 @@ def irregular_interleaving(t) -> bool:
         if n in seen and kids[i - 1] != n:
             noncontig = True
         seen.add(n)
-    if noncontig:
-        names = list(dict.fromkeys(kids))
-        counts = {n: kids.count(n) for n in names}
-        rounds = max(counts.values())
-        rep = [n for n in names if counts[n] == rounds]
-        idx = [i for i, n in enumerate(kids) if n in rep]
-        regular = (all(counts[n] in (1, rounds) for n in names)
-                   and [kids[i] for i in idx] == rep * rounds
-                   and idx == list(range(idx[0], idx[-1] + 1)))
-        if not regular:
-            return True
+    if noncontig and not _regular_groups(kids):
+        return True
     return any(irregular_interleaving(c) for c in t["content"] if isinstance(c, dict))
 
 
